@@ -452,6 +452,10 @@ def is_instance(value: Any, type_: Any) -> bool:
     has been called.
     """
 
+    if is_new_type(type_):
+        # NewType may also be nested in a generic, where get_field_types does not unwrap it
+        type_ = unwrap_newtype(type_)
+
     # We do not want Python implicit isinstance(True, int) == True
     if type_ is int and (value is True or value is False):
         return False
